@@ -394,3 +394,9 @@ func (it *Interp) computePowSummary(fn *ssa.Function, args []Value, f *Field, nl
 	sum.why = fn.String() + ": " + strings.Join(desc, ", ")
 	return sum
 }
+
+// IsHeavy reports whether fn would be summarised as a power function (an addition chain).
+func IsHeavy(fn *ssa.Function) bool {
+	it := &Interp{cfgs: map[*ssa.Function]*cfgInfo{}}
+	return isHeavy(fn, it)
+}
